@@ -12,6 +12,7 @@
 -/
 import IocProofs.Lemmas.ValueTop
 import IocProofs.Lemmas.ValueDefault
+import IocProofs.Lemmas.ValueTwice
 namespace Ioc.C17
 open Ioc Ioc.Tag Ioc.Value
 
@@ -63,6 +64,22 @@ theorem C17_literal_partial (J : Json) (cfg : Cfg) (ty : FieldTy) (s : Bytes) (a
     bindValue J cfg ty (render s as) = decode ty (.str s) ∧
     bindValue J cfg .string (render s as) = .ok (.str s) :=
   literal_plain J cfg ty s as hl has
+
+/-- A property that is populated AGAIN (its component's earlier creation failed; the Property object with TagStr,
+    TagVal, arguments and field survived in the definition registry; the configuration may have been changed in
+    between): when TagStr contains a placeholder, whatever TagVal and field contents the earlier population left
+    play no part — if a first-time population under the CURRENT configuration binds `v`, the re-population binds
+    exactly `v` and ends in exactly the same state.  Holds for value tags, the prop shorthand (a value tag,
+    `C17_prop_is_value`) and prefix tags whose key is written with a placeholder alike, so with
+    `C17_value_eq_prefix_partial` the value path and the prefix path of a re-populated holder still agree on the
+    current configuration. -/
+theorem C17_repopulate_current (J : Json) (evalE : Bytes → Except Err Val) (validate : FVal → List Bytes → Bool)
+    (cfg : Cfg) (ty : FieldTy) (isValue : Bool) (tagStr leftVal : Bytes) (args : Args) (leftBound : Option FVal)
+    (r : Bytes × Bytes × Bytes) (hf : findEl cDollar tagStr = some r) (fresh : PState) (v : FVal)
+    (h0 : runStagesOn J evalE validate cfg ty stageOrder ⟨isValue, tagStr, tagStr, args, none⟩ = .ok fresh)
+    (hb : fresh.bound = some v) :
+    runStagesOn J evalE validate cfg ty stageOrder ⟨isValue, tagStr, leftVal, args, leftBound⟩ = .ok fresh :=
+  repopulate_current J evalE validate cfg ty isValue tagStr leftVal args leftBound r hf fresh v h0 hb
 
 /-! ### counterexamples: one per class of the known lossy value path (each is a corpus case of the `value`
     sub-harness, replayed on the real code on every run) -/
@@ -137,5 +154,23 @@ example : bindValue goJson (cfgK .null) .int (ofString "${k:3}") = .ok (.int 3) 
 example : PlainLiteral (ofString "hello world") = true := by decide
 example : bindValue goJson (cfgK .null) .string (ofString "hello world,required=false") = .ok (.str (ofString "hello world")) := by decide
 example : bindProp goJson (cfgK (.int 5)) .int (ofString "k,required=false") = .ok (.int 5) := by decide
+
+-- a holder populated twice: `G int value:"${kgate}"` fails first (kgate is not configured), then k is repointed and
+-- kgate set: value placeholder, shorthand and prefix twin all show the CURRENT value; the hypothesis of
+-- C17_repopulate_current is met by `${k}`
+def cfgFirst : Cfg := fun k => if k = ofString "k" then .str (ofString "a.example.org") else .null
+def cfgSecond : Cfg := fun k => if k = ofString "k" then .str (ofString "b.example.org") else if k = ofString "kgate" then .int 1 else .null
+def holderGVPX : List HProp :=
+  [⟨.int, ⟨true, ofString "${kgate}", ofString "${kgate}", [], none⟩⟩, ⟨.string, ⟨true, ofString "${k}", ofString "${k}", [], none⟩⟩,
+   ⟨.string, ⟨true, ofString "${k}", ofString "${k}", [], none⟩⟩, ⟨.string, ⟨false, ofString "k", ofString "k", [], none⟩⟩]
+example : (createTwice goJson noExpr noValidate cfgFirst cfgSecond false holderGVPX).failed = true ∧
+    (createTwice goJson noExpr noValidate cfgFirst cfgSecond false holderGVPX).first = some .required ∧
+    (createTwice goJson noExpr noValidate cfgFirst cfgSecond false holderGVPX).second = none ∧
+    (createTwice goJson noExpr noValidate cfgFirst cfgSecond false holderGVPX).props.map (·.st.bound) =
+      [some (.int 1), some (.str (ofString "b.example.org")), some (.str (ofString "b.example.org")), some (.str (ofString "b.example.org"))] ∧
+    -- what the first population left in TagVal: the FIRST configuration's text
+    ((populateAll goJson noExpr noValidate cfgFirst stageOrder holderGVPX).1.map (·.st.tagVal)) =
+      [[], ofString "a.example.org", ofString "a.example.org", ofString "k"] := by decide +kernel
+example : findEl cDollar (ofString "${k}") = some ([], ofString "k", []) := by decide
 
 end Ioc.C17
